@@ -617,7 +617,8 @@ def run(tier):
     for a in avgs:
       jobs.append(('cm', (kind, n if kind in ('binary', 'multiclass') else 2 if q else 3, a)))
   for kl in ([1, 2], [1, 3], [2], [3], [1, 2, 3]):
-    for a in (['micro'] if q else ['micro', 'macro']):
+    # macro over top-k matrices is in the quick tier too: the macro mean was taken over the k axis (fixed: 6cc113b)
+    for a in ('micro', 'macro'):
       jobs.append(('topk', (tuple(kl), 1 if q else 2, a)))
   for kl, npred in (((1, 2, 3), 3), ((2,), 3), ((1, 2), 2)):
     jobs.append(('retrieval', (kl, 1 if q else 2, npred)))
